@@ -1,0 +1,38 @@
+//! Named schedule points for controlled-concurrency verification.
+//!
+//! This module only exists when the crate is compiled with `--cfg crux_verif`. A point is a
+//! no-op unless a controller has been installed with [`set_controller`]; the controller is
+//! called on the thread that reached the point (it may block that thread to impose a schedule).
+//! Points are only ever placed where the calling code holds no lock.
+
+use std::sync::{Arc, RwLock};
+
+/// Callback invoked at every schedule point with the point's name and an observed value.
+pub type Controller = Arc<dyn Fn(&'static str, u64) + Send + Sync>;
+
+static CONTROLLER: RwLock<Option<Controller>> = RwLock::new(None);
+
+/// Install (or with `None` remove) the process-wide controller.
+pub fn set_controller(controller: Option<Controller>) {
+    *CONTROLLER
+        .write()
+        .unwrap_or_else(std::sync::PoisonError::into_inner) = controller;
+}
+
+/// A named schedule point.
+pub fn point(name: &'static str) {
+    point_val(name, 0);
+}
+
+/// A named schedule point which also reports a value the code has just observed or produced.
+pub fn point_val(name: &'static str, value: u64) {
+    // the guard is dropped before the controller runs, so a parked thread never blocks
+    // `set_controller`
+    let controller = CONTROLLER
+        .read()
+        .unwrap_or_else(std::sync::PoisonError::into_inner)
+        .clone();
+    if let Some(controller) = controller {
+        controller(name, value);
+    }
+}
